@@ -124,14 +124,15 @@ def pool_text(c):
 def case_text(c):
     k = c["kind"]
     if k == "SPE":
-        return "SPE %s %d %d %d %d %d %d %d %s %d %d %d %d %d %d\n%s" % (
+        return "SPE %s %d %d %d %d %d %d %d %s %d %d %d %d %d %d %d\n%s" % (
             c["id"], len(c["range"]), c["D"], c["d"], 1 if c["global"] else 0, c["k"], c["nupd"], c["maxiter"],
-            fhex(c["tol"]), c["srand"], c["shseed"], c["useed"], c["umode"], c["nbm"], c["log"], pool_text(c))
+            fhex(c["tol"]), c["srand"], c["shseed"], c["useed"], c["umode"], c["nbm"], c["log"], c.get("flags", 0), pool_text(c))
     if k == "RP":
-        return "RP %s %d %d %d %d %d\n%s" % (c["id"], len(c["range"]), c["D"], c["d"], c["gseed"], c["gmode"], pool_text(c))
+        return "RP %s %d %d %d %d %d %d\n%s" % (c["id"], len(c["range"]), c["D"], c["d"], c["gseed"], c["gmode"],
+                                              c.get("flags", 0), pool_text(c))
     if k == "FA":
-        return "FA %s %d %d %d %d %s %d\n%s" % (c["id"], len(c["range"]), c["D"], c["d"], c["maxiter"], fhex(c["eps"]),
-                                              c["srand"], pool_text(c))
+        return "FA %s %d %d %d %d %s %d %d\n%s" % (c["id"], len(c["range"]), c["D"], c["d"], c["maxiter"], fhex(c["eps"]),
+                                                 c["srand"], c.get("flags", 0), pool_text(c))
     if k == "RPM":
         return "RPM %s %d %d %d %d\n" % (c["id"], c["D"], c["d"], c["srand"], c["reps"])
     if k == "RPP":
@@ -211,11 +212,39 @@ def parse_block(lines):
     return r
 
 
-def run_impl(ctx, exe, cases, timeout=None):
+DEFAULTS = {"maxiter": 100, "nupd": 100, "tol": 1e-9, "global": True, "k": 5, "nbm": 2, "eps": 1e-9}
+FLAG_KEYS = {"SPE": [(1, "maxiter"), (2, "nupd"), (4, "tol"), (8, "global"), (16, "k"), (32, "nbm")],
+             "FA": [(1, "maxiter"), (2, "eps")]}
+
+
+def effective(c):
+    """the parameter values the library works with: a keyword left UNSET (flags) takes the documented default"""
+    fl = c.get("flags", 0)
+    e = dict(c)
+    for bit, key in FLAG_KEYS.get(c.get("kind"), []):
+        if fl & bit:
+            e[key] = DEFAULTS[key]
+    return e
+
+
+def py_auto_iterations(glob, N):
+    """routines/spe.hpp `2000 + floor(0.04 * N * N)` (x 3 for the local strategy) evaluated in this platform's binary64;
+    cross-check of the extracted model Spe_Sched_Model.auto_iterations (explicit round-to-nearest-even over Z)"""
+    m = 2000 + int(math.floor(0.04 * N * N))
+    return m if glob else 3 * m
+
+
+def expected_iterations(c):
+    e = effective(c)
+    return e["maxiter"] if e["maxiter"] > 0 else py_auto_iterations(e["global"], len(c["range"]))
+
+
+def run_impl(ctx, exe, cases, timeout=None, env=None):
     """-> list aligned with cases of dicts (parsed block) with extra keys crashed / detail.
     Hang detection is by CPU time (the harness sets RLIMIT_CPU on itself: SIGXCPU), so that a loaded machine cannot
     turn a slow run into a verdict; the wall-clock timeout is only a generous backstop."""
-    cpu = timeout if timeout is not None else 60 + len(cases) // 5 + sum(c.get("maxiter", 0) for c in cases) // 2000
+    cpu = timeout if timeout is not None else 60 + len(cases) // 5 + sum(
+        (expected_iterations(c) if c.get("kind") == "SPE" else 0) for c in cases) // 2000
     wall = 4 * cpu + 240
     results = [None] * len(cases)
     index = {c["id"]: i for i, c in enumerate(cases)}
@@ -225,7 +254,7 @@ def run_impl(ctx, exe, cases, timeout=None):
     while start < len(cases) and guard < len(cases) + 2:
         guard += 1
         inp = "CPULIMIT %d\n" % cpu + "".join(case_text(c) for c in cases[start:])
-        r = ctx.run(exe, inp, timeout=wall)
+        r = ctx.run(exe, inp, timeout=wall, env=env)
         cur, buf, last = None, [], None
         for line in r.out.splitlines():
             if line.startswith("C "):
@@ -344,7 +373,7 @@ def replay_coordinates(c, res, pairs_per_iter, start=None, want_lambda=False):
         for j in range(i + 1, N):
             mx = max(mx, R[i][j])
     alpha = (1.0 / mx * math.sqrt(2.0)) if c["global"] else 1.0
-    T = c["maxiter"]
+    T = c.get("_T") or expected_iterations(c)      # the divisor of `lambda = lambda - lambda / max_iter` (model: sc_div)
     if start is None:
         Y, lam = [list(row) for row in res["Y0"]], 1.0
     else:
@@ -460,13 +489,13 @@ def gen_spe(rng, cid, quick=True):
     k = rng.choice([x for x in (3, 3, 4, 5, 7, N - 1) if 3 <= x < N]) if not glob else 0
     half = N // 2
     nupd = rng.choice([1, 1, max(1, half // 2), max(1, half - 1), max(1, half), half + 1, N, 3 * N, 1000])
-    maxiter = rng.choice([1, 2, 3, 5, 10, 20, 50])
+    maxiter = rng.choice([1, 1, 2, 3, 5, 10, 20, 50, 100])
     umode = 0 if glob else rng.choice([0, 0, 0, 1, 2, 3])
     if umode == 3 and N > 8:
         k = rng.choice([4, 8])            # u = m/8: u*k hits the integer boundaries of floor exactly
     nbm = rng.choice([0, 1, 2])
     c = {"kind": "SPE", "id": cid, "N": N, "D": D, "d": d, "global": glob, "k": k, "nupd": nupd,
-         "maxiter": maxiter, "tol": rng.choice([2.0 ** -20, 2.0 ** -10, 1e-5, 0.5]),
+         "maxiter": maxiter, "tol": rng.choice([2.0 ** -20, 2.0 ** -10, 1e-5, 0.5, 1e-9, 1e-300]),
          "srand": rng.randrange(1 << 30), "shseed": rng.randrange(1 << 30), "useed": rng.randrange(1 << 30),
          "umode": umode, "nbm": nbm, "log": 2}
     span, den, distinct = rng.choice([2, 8]), rng.choice([1, 4, 8]), (rng.random() < 0.85)
@@ -499,7 +528,7 @@ def gen_spe_stress(rng, cid, glob):
     N = rng.choice([8, 12, 16, 24])
     D = rng.choice([1, 2, 3])
     c = {"kind": "SPE", "id": cid, "N": N, "D": D, "d": D, "global": glob, "k": 0 if glob else rng.choice([3, 4, 5]),
-         "nupd": max(1, rng.choice([N // 4, N // 2])), "maxiter": 2000 if glob else 6000, "tol": 1e-5,
+         "nupd": max(1, rng.choice([N // 4, N // 2])), "maxiter": rng.choice([0, 2000 if glob else 6000]), "tol": 1e-5,
          "srand": rng.randrange(1 << 30), "shseed": rng.randrange(1 << 30), "useed": rng.randrange(1 << 30),
          "umode": 0, "nbm": 0, "log": 0, "measure": True}
     return with_range(rng, c, lambda P: gen_points(rng, P, D, span=8, den=8), repeats=False)
@@ -512,6 +541,12 @@ def gen_rp(rng, cid, exact):
     c = {"kind": "RP", "id": cid, "N": N, "D": D, "d": d, "gseed": rng.randrange(1 << 30),
          "gmode": 0 if exact else 1, "exact": exact}
     c["shift"] = [dyad(rng, -16, 16, 4) for _ in range(D)]
+    mode = rng.random()
+    if mode < 0.35:
+        # a common OFFSET 1e6 .. 1e12 times the spread: exact stream keeps data + offset exact (bit-for-bit still required),
+        # tolerance stream uses arbitrary doubles and allows the rounding of the offset itself
+        c["shift"] = big_dyadic_shift(rng, D) if exact else [rng.choice([-1, 1]) * 10.0 ** rng.uniform(6, 12) for _ in range(D)]
+        c["offset"] = True
     span = rng.choice([4, 64])
     return with_range(rng, c, lambda P: gen_points(rng, P, D, span=span, den=8, distinct=False))
 
@@ -521,8 +556,11 @@ def gen_fa(rng, cid, exact):
     D = rng.choice([1, 2, 3, 4])
     d = rng.choice([x for x in (1, 2, 3) if x < N])
     c = {"kind": "FA", "id": cid, "N": N, "D": D, "d": d, "maxiter": rng.choice([0, 1, 2, 5, 20]),
-         "eps": rng.choice([0.0, 2.0 ** -10, 1e-5]), "srand": rng.randrange(1 << 30), "exact": exact}
+         "eps": rng.choice([0.0, 2.0 ** -10, 1e-5, 1e-9]), "srand": rng.randrange(1 << 30), "exact": exact}
     c["shift"] = [dyad(rng, -16, 16, 4) for _ in range(D)]
+    if exact and rng.random() < 0.35:
+        c["shift"] = big_dyadic_shift(rng, D)
+        c["offset"] = True
     return with_range(rng, c, lambda P: gen_points(rng, P, D, span=8, den=8, distinct=True))
 
 
@@ -537,6 +575,171 @@ def gen_fa_replay(rng, cid, N, D, d, T, eps=0.0, cap=2):
     c["traj_rounds"] = min(T, cap)
     c["shift"] = [dyad(rng, -16, 16, 4) for _ in range(D)]
     return with_range(rng, c, lambda P: gen_points(rng, P, D, span=8, den=8, distinct=True))
+
+
+
+def gen_spe_auto(rng, cid, glob):
+    """max_iteration = 0: SPE's automatic schedule (2000 + floor(0.04 N N) iterations, x 3 local), fully logged; the other
+    special values ride along: spe_num_updates at 1 / at its clamp N/2 / above it, spe_tolerance at its default and tiny"""
+    N = rng.choice([4, 5, 7, 10, 15, 20, 25, 30] if glob else [5, 7, 10, 15, 20, 25, 30])
+    D = rng.choice([1, 2, 3])
+    d = rng.choice([x for x in (1, 2, 3) if x < N])
+    k = 0 if glob else rng.choice([x for x in (3, 4, 5, 7) if x < N])
+    half = N // 2
+    c = {"kind": "SPE", "id": cid, "N": N, "D": D, "d": d, "global": glob, "k": k,
+         "nupd": rng.choice([1, half, half + 1, 1000, max(1, half // 2)]), "maxiter": 0,
+         "tol": rng.choice([1e-9, 1e-5, 2.0 ** -20, 1e-300, 5e-324]),
+         "srand": rng.randrange(1 << 30), "shseed": rng.randrange(1 << 30), "useed": rng.randrange(1 << 30),
+         "umode": 0, "nbm": rng.choice([0, 1, 2]), "log": 2, "auto": True}
+    return with_range(rng, c, lambda P: gen_points(rng, P, D, span=8, den=8, distinct=True), repeats=False)
+
+
+def gen_spe_sched_only(rng, cid, N, glob):
+    """only the number of iterations is judged (N = 205: binary64 floor(0.04 N N) = 1680, not N N / 25 = 1681)"""
+    c = {"kind": "SPE", "id": cid, "N": N, "D": 2, "d": 2, "global": glob, "k": 0 if glob else 5, "nupd": 10, "maxiter": 0,
+         "tol": 1e-9, "srand": rng.randrange(1 << 30), "shseed": rng.randrange(1 << 30), "useed": rng.randrange(1 << 30),
+         "umode": 0, "nbm": 0, "log": 0, "sched_only": True, "rkind": "identity"}
+    c["pool"] = gen_points(rng, N, 2, span=64, den=8, distinct=True)
+    return norm_case(c)
+
+
+def gen_huge(rng, cid, kind):
+    """finite magnitudes whose squares overflow: the outcome must be a matrix or a documented exception, never an abort"""
+    N = rng.choice([4, 6, 8])
+    D = rng.choice([2, 3])
+    mag = rng.choice([2.0 ** 520, 2.0 ** 700, 2.0 ** 1000, 1.5e308 / 8])
+    if kind == "SPE":
+        c = {"kind": "SPE", "id": cid, "N": N, "D": D, "d": 2, "global": True, "k": 0, "nupd": 2, "maxiter": 5, "tol": 1e-9,
+             "srand": rng.randrange(1 << 30), "shseed": rng.randrange(1 << 30), "useed": rng.randrange(1 << 30),
+             "umode": 0, "nbm": 0, "log": 0}
+    elif kind == "RP":
+        c = {"kind": "RP", "id": cid, "N": N, "D": D, "d": 1, "gseed": rng.randrange(1 << 30), "gmode": 1, "exact": False}
+    else:
+        c = {"kind": "FA", "id": cid, "N": N, "D": D, "d": 1, "maxiter": 3, "eps": 1e-9, "srand": rng.randrange(1 << 30),
+             "exact": False}
+    c["huge"] = True
+    c["shift"] = [0.0] * D
+    c["rkind"] = "identity"
+    c["pool"] = [[v * mag for v in row] for row in gen_points(rng, N, D, span=8, den=8, distinct=True)]
+    return norm_case(c)
+
+
+def gen_fa_special(rng, cid):
+    """special parameter values of Factor Analysis on the exact stream (dyadic data, N a power of two: the centred data
+    of the translation pair are bit-identical, so ill-conditioning cannot separate the two runs): fa_epsilon = 0, default,
+    large, huge; max_iteration = 0, 1, default; more features than samples"""
+    N = rng.choice([2, 4, 8])
+    D = rng.choice([1, 2, 3, 4, 6])
+    d = rng.choice([x for x in (1, 2, 3) if x < N])
+    c = {"kind": "FA", "id": cid, "N": N, "D": D, "d": d, "maxiter": rng.choice([0, 1, 1, 100]),
+         "eps": rng.choice([0.0, 1e-9, 1e6, 1e150, 5e-324]), "srand": rng.randrange(1 << 30), "exact": True}
+    c["shift"] = big_dyadic_shift(rng, D)
+    return with_range(rng, c, lambda P: gen_points(rng, P, D, span=8, den=8, distinct=True))
+
+
+def big_dyadic_shift(rng, D):
+    """a common offset 2^20 .. 2^43 (up to 1e12 times the spread) that keeps data + offset exact in binary64"""
+    return [rng.choice([-1, 1]) * rng.randrange(1, 8) * 2.0 ** rng.randrange(20, 41) for _ in range(D)]
+
+
+def gen_variants(rng, quick):
+    """groups (base, [variants], what): every variant must reproduce the output of its base bit for bit
+    unset   : a keyword left UNSET vs set explicitly to the documented default
+    omp     : embed() called from inside the application's own `#pragma omp parallel` region (nested parallelism off / on)"""
+    groups = []
+    n_unset, n_omp = (6, 2) if quick else (40, 12)
+    for i in range(n_unset):
+        glob = rng.random() < 0.5
+        N = rng.choice([8, 12, 16])
+        b = {"kind": "SPE", "id": "vu%d" % i, "N": N, "D": 2, "d": 2, "global": glob, "k": 5, "nupd": 100, "maxiter": 100,
+             "tol": 1e-9, "srand": rng.randrange(1 << 30), "shseed": rng.randrange(1 << 30), "useed": rng.randrange(1 << 30),
+             "umode": 0, "nbm": 2, "log": 0, "rkind": "identity"}
+        b["pool"] = gen_points(rng, N, 2, span=8, den=8, distinct=True)
+        b = norm_case(b)
+        masks = [1, 2, 4, 16 | 32, 63 if glob else 63 - 8]
+        if glob:
+            masks.append(8)
+        vs = []
+        for j, m in enumerate(rng.sample(masks, 3)):
+            v = dict(b)
+            v["id"], v["flags"] = "vu%d_%d" % (i, j), m
+            vs.append(v)
+        groups.append((b, vs, "keyword-unset-vs-explicit-default/SPE"))
+    for i in range(max(2, n_unset // 2)):
+        N = rng.choice([4, 8])
+        D = rng.choice([2, 3])
+        b = {"kind": "FA", "id": "vf%d" % i, "N": N, "D": D, "d": 1, "maxiter": 100, "eps": 1e-9, "srand": rng.randrange(1 << 30),
+             "exact": True, "rkind": "identity", "shift": [0.0] * D}
+        b["pool"] = gen_points(rng, N, D, span=8, den=8, distinct=True)
+        b = norm_case(b)
+        vs = []
+        for j, m in enumerate([1, 2, 3]):
+            v = dict(b)
+            v["id"], v["flags"] = "vf%d_%d" % (i, j), m
+            vs.append(v)
+        groups.append((b, vs, "keyword-unset-vs-explicit-default/FA"))
+    omp = []
+    for i in range(n_omp):
+        for kind in ("SPE", "RP", "FA"):
+            if kind == "SPE":
+                b = gen_spe(rng, "vo%d%s" % (i, kind))
+                b["log"] = 0
+            elif kind == "RP":
+                b = gen_rp(rng, "vo%d%s" % (i, kind), False)
+            else:
+                b = gen_fa(rng, "vo%d%s" % (i, kind), True)
+            vs = []
+            for j, m in enumerate([64, 64 | 128]):
+                v = dict(b)
+                v["id"], v["flags"] = b["id"] + "_%d" % j, m
+                vs.append(v)
+            omp.append((b, vs, "called-inside-omp-parallel-region/" + kind))
+    return groups, omp
+
+
+def same_bits(A, B):
+    return (len(A) == len(B) and all(len(a) == len(b) for a, b in zip(A, B)) and
+            all((x == y) or (x != x and y != y) for a, b in zip(A, B) for x, y in zip(a, b)))
+
+
+def eval_variants(ctx, exe, st, groups, env=None):
+    flat = []
+    for b, vs, _ in groups:
+        flat += [b] + vs
+    if not flat:
+        return
+    res = run_impl(ctx, exe, flat, env=env)
+    i = 0
+    for b, vs, what in groups:
+        rb = res[i]
+        i += 1
+        for v in vs:
+            rv = res[i]
+            i += 1
+            st.evals += 1
+            st.count("variant/" + what)
+            pv = public(v)
+            if rv["status"] == "SKIP" or rb["status"] == "SKIP":
+                continue
+            if rv["crashed"] or rv["status"] in ("GARBAGE", None):
+                ctx.violation(pv, "%s (%s, flags %d) aborts / hangs / prints garbage where the plain call %s: %s" % (
+                    v["kind"], what, v.get("flags", 0), "also does" if rb["crashed"] else "returns", str(rv.get("detail"))[:500]))
+                continue
+            if rb["crashed"] or rb["status"] in ("GARBAGE", None):
+                ctx.violation(public(b), "%s run of the real library aborts / hangs / prints garbage: %s" % (b["kind"], str(rb.get("detail"))[:500]))
+                continue
+            if rb["status"] != rv["status"]:
+                ctx.mismatch(pv, "%s: the plain call gives %s, the variant (flags %d) gives %s %s" % (
+                    what, rb["status"], v.get("flags", 0), rv["status"], str(rv.get("what", ""))[:200]))
+                continue
+            if rb["status"] != "OK":
+                continue
+            if rb.get("T") != rv.get("T") or not same_bits(rb.get("Y", []), rv.get("Y", [])):
+                ctx.mismatch(pv, "%s: the variant (flags %d) does not reproduce the plain call bit for bit under the same random "
+                                 "streams (iterations %s vs %s; first rows %s vs %s)" % (
+                                     what, v.get("flags", 0), rb.get("T"), rv.get("T"), rb.get("Y", [])[:1], rv.get("Y", [])[:1]))
+            else:
+                st.nontrivial.add(json.dumps(["variant", what, v["id"], v.get("flags", 0)]))
 
 
 def shifted(c):
@@ -562,25 +765,28 @@ class Stats:
 
 
 def public(c):
-    return {k: v for k, v in c.items() if k not in ("measure", "cols")}
+    return {k: v for k, v in c.items() if k not in ("measure", "cols", "_T", "_wantT")}
 
 
 def eval_spe(ctx, exe, mexe, cases, st):
     res = run_impl(ctx, exe, cases)
+    cases = [effective(c) for c in cases]      # keywords left unset (flags) take the documented defaults
     todo = []
     for c, r in zip(cases, res):
         if r["status"] == "SKIP":
             continue
         st.evals += 1
         st.count("SPE/" + ("global" if c["global"] else "local") + ("/bad" if c.get("bad") else "")
-                 + ("/measure" if c.get("measure") else ""))
+                 + ("/measure" if c.get("measure") else "") + ("/automatic-schedule" if c["maxiter"] == 0 else ""))
+        if c.get("flags"):
+            st.count("SPE/keywords-left-unset")
         st.count("range/" + str(c.get("rkind", "identity")))
         if r["crashed"] or r["status"] in ("GARBAGE", None):
             ctx.violation(public(c), "SPE run of the real library aborts / hangs / prints garbage: " + str(r.get("detail"))[:600])
             continue
         if r["status"] != "OK":
             st.count("SPE/rejected")
-            if not c.get("bad") and "not connected" not in r.get("what", "") and "range check" not in r.get("what", ""):
+            if not c.get("bad") and not c.get("huge") and "not connected" not in r.get("what", "") and "range check" not in r.get("what", ""):
                 ctx.violation(public(c), "valid SPE parameters rejected: " + str(r.get("what"))[:300])
             continue
         if c.get("bad") and c["bad"] in ("nupd0", "nupdneg", "tol0", "tolneg", "d0", "dN"):
@@ -591,9 +797,33 @@ def eval_spe(ctx, exe, mexe, cases, st):
         if Y is None or r["shape"] != (N, c["d"]) or len(Y) != N:
             ctx.violation(public(c), "SPE output has shape %s, expected %s" % (r.get("shape"), (N, c["d"])))
             continue
+        if c.get("huge"):
+            st.count("SPE/huge-magnitudes/" + ("finite" if is_finite_rows(Y) else "non-finite-matrix"))
+            continue          # distances overflow: the outcome must be a matrix or an exception (it is a matrix)
+        if r.get("T") is not None and r["T"] != expected_iterations(c) and (c.get("measure") or c.get("sched_only")):
+            msg = "SPE ran %d iterations (shuffles) for max_iteration=%d, N=%d, %s strategy: the schedule is %d" % (
+                r["T"], c["maxiter"], N, "global" if c["global"] else "local", expected_iterations(c))
+            if c["maxiter"] > 0:
+                ctx.violation(public(c), msg)      # an explicitly requested number of iterations is not run
+                continue
+            if c.get("sched_only"):
+                # N >= 205: only the double rounding of 0.04 * N * N separates the shipped count from 2000 + N N / 25;
+                # the property does not fix the automatic count, so this is recorded, not judged
+                st.count("SPE/schedule-only(N=%d)/differs-from-binary64-model" % N)
+                ctx.note(msg + " (automatic schedule at N >= 205: recorded, not judged)")
+                continue
+            ctx.mismatch(public(c), msg + " (automatic schedule; model Spe_Sched_Model.auto_iterations)")
         degenerate = c["global"] and all(row == c["X"][0] for row in c["X"])
         if not is_finite_rows(Y) and not degenerate:
-            ctx.violation(public(c), "SPE returns non-finite coordinates on finite data with tol > 0")
+            ctx.violation(public(c), "SPE returns non-finite coordinates on finite data with tol > 0 (max_iteration=%d%s, %d iterations "
+                                     "ran, %s strategy, N=%d, spe_num_updates=%d, spe_tolerance=%g): lambda must stay in [0, 1] "
+                                     "(theorem lambda_schedule_every_max_iteration) and the only divisor of an iteration is d + tol > 0" % (
+                                         c["maxiter"], " = automatic schedule" if c["maxiter"] == 0 else "", r.get("T", -1),
+                                         "global" if c["global"] else "local", N, c["nupd"], c["tol"]))
+            continue
+        if c.get("sched_only"):
+            st.count("SPE/schedule-only(N=%d)" % N)
+            st.nontrivial.add(json.dumps(["sched", N, c["global"], r.get("T")]))
             continue
         if c.get("measure"):
             if c["global"]:
@@ -611,13 +841,27 @@ def eval_spe(ctx, exe, mexe, cases, st):
         return
     # --- specification on the implementation's own logs + correspondence with the model
     text_spec, text_model, text_maxl, meta = [], [], [], []
-    for c, r in todo:
+    # the iteration schedule (extracted Spe_Sched_Model: spe_iterations, schedule_check on the observed number of shuffles)
+    sched_blocks = model_blocks(ctx, mexe, "".join("SCHED %d %d %d %d\n" % (1 if c["global"] else 0, c["N"], c["maxiter"], r.get("T", len(r["S"])))
+                                                   for c, r in todo), len(todo))
+    for (c, r), sb in zip(todo, sched_blocks):
         N = c["N"]
         nu = min(c["nupd"], N // 2)
         k = len(r["NB"][0]) if (not c["global"] and r["NB"]) else 0
         T = len(r["S"])
-        ok_shape = (T == c["maxiter"] and len(r["P"]) == T and len(r["F"]) == T and len(r["U"]) == T
+        try:
+            want_T = int([ln for ln in sb if ln.startswith("ITER")][0].split()[1])
+            c["_T"] = int([ln for ln in sb if ln.startswith("DIV")][0].split()[1])
+            sched_ok = "SCHED ok" in sb
+        except (IndexError, ValueError):
+            raise vlib.BuildError("model driver: unreadable SCHED answer %s" % sb[:3])
+        if want_T != expected_iterations(c):
+            ctx.mismatch(public(c), "iteration schedule: the model's binary64 evaluation of 2000 + floor(0.04 N N) gives %d, this "
+                                    "platform's gives %d (N=%d)" % (want_T, expected_iterations(c), N))
+        st.count("SPE/schedule-check")
+        ok_shape = (sched_ok and T == want_T and len(r["P"]) == T and len(r["F"]) == T and len(r["U"]) == T
                     and (c["global"] or len(r["NB"]) == N))
+        c["_wantT"] = want_T
         known = set(c["names"])
         stray = [v for p in r["P"] for v in p if v not in known]
         if stray:
@@ -639,7 +883,14 @@ def eval_spe(ctx, exe, mexe, cases, st):
         if ok_shape is None:
             continue
         if not ok_shape:
-            ctx.violation(pc, "SPE ran %d shuffles for max_iteration=%d (or the log is incomplete)" % (T, c["maxiter"]))
+            msg = ("SPE ran %d shuffles for max_iteration=%d%s; the schedule (spe_iterations, N=%d, %s strategy) is %d "
+                   "iterations (or the log is incomplete)" % (T, c["maxiter"], " = automatic" if c["maxiter"] == 0 else "",
+                                                              c["N"], "global" if c["global"] else "local", c.get("_wantT", -1)))
+            if c["maxiter"] == 0 and T >= 1 and len(r["P"]) == T and len(r["F"]) == T and len(r["U"]) == T:
+                # the automatic count is the library's own choice (not stated by the property): model / implementation disagree
+                ctx.mismatch(pc, msg)
+            else:
+                ctx.violation(pc, msg)
             continue
         sb, mb, xb = spec_blocks[bi], mod_blocks[bi], maxl_blocks[bi]
         bi += 1
@@ -798,7 +1049,7 @@ def eval_spe(ctx, exe, mexe, cases, st):
                 ok, worst = False, float("nan")
             if not ok:
                 ctx.mismatch(public(c), "binary64 transcription of the update differs from the extracted spe_step on iteration "
-                                        "%d by %.3g relative" % (c["shseed"] % max(1, c["maxiter"]), worst))
+                                        "%d by %.3g relative" % (c["shseed"] % max(1, c.get("_T", 1)), worst))
 
 
 def eval_pairs(ctx, exe, mexe, cases, st):
@@ -833,6 +1084,11 @@ def eval_pairs(ctx, exe, mexe, cases, st):
                     c["kind"], r0.get("what", r0["status"]), r1.get("what", r1["status"])))
             st.count(c["kind"] + "/rejected")
             continue
+        if c.get("offset"):
+            st.count(c["kind"] + "/large-common-offset")
+        if c.get("huge"):
+            st.count(c["kind"] + "/huge-magnitudes/" + r0["status"])
+            continue          # squares overflow: a matrix or a documented exception, anything but an abort (checked above)
         Y0, Y1 = r0["Y"], r1["Y"]
         N, d = c["N"], c["d"]
         if r0["shape"] != (N, d) or r1["shape"] != (N, d):
@@ -858,7 +1114,12 @@ def eval_pairs(ctx, exe, mexe, cases, st):
             else:
                 tol = 1e-9 if c["kind"] == "RP" else 1e-6
                 worst = max(abs(a - b) for ra, rb in zip(Y0, Y1) for a, b in zip(ra, rb)) / scale
-                if worst > tol * 64:
+                # the translated data carry the rounding of the offset itself: x + t is rounded to 2^-53 |t| relative, the mean
+                # of N such values likewise; the output is a linear map with coefficients |g| / sqrt(D) of the centred data
+                gmax = max([abs(g) for g in r0.get("G", [])] + [1.0])
+                allow = 8.0 * 2.0 ** -52 * max([abs(t) for t in c["shift"]] + [0.0]) * (N + 2) * c["D"] * gmax / scale \
+                    if (c["kind"] == "RP" and c.get("offset")) else 0.0
+                if worst > tol * 64 + allow:
                     ctx.violation(pc, "%s is not invariant to translating the data by %s: outputs differ by %.3g relative" % (
                         c["kind"], c["shift"], worst))
                     continue
@@ -1343,6 +1604,12 @@ def generate(ctx, rng, budget):
     pairs += [gen_fa(rng, "f%d" % i, i % 3 != 2) for i in range(budget["fa"])]
     pairs += [gen_fa_replay(rng, "q%d" % i, *shape, cap=(3 if (budget.get("fa_cap3") and shape[1] == 1) else 2))
               for i, shape in enumerate(budget["fa_replay"])]
+    # wave 3: special parameter values and input classes
+    spe += [gen_spe_auto(rng, "a%d" % i, i % 2 == 0) for i in range(budget.get("auto", 0))]
+    spe += [gen_huge(rng, "hs%d" % i, "SPE") for i in range(budget.get("huge", 0))]
+    pairs += [gen_fa_special(rng, "fs%d" % i) for i in range(budget.get("fa_special", 0))]
+    pairs += [gen_huge(rng, "hr%d" % i, "RP") for i in range(budget.get("huge", 0))]
+    pairs += [gen_huge(rng, "hf%d" % i, "FA") for i in range(budget.get("huge", 0))]
     return spe, bad, meas, pairs
 
 
@@ -1421,8 +1688,10 @@ def run(ctx):
                 (4, 2, 1, 0, 0.0), (8, 3, 2, 0, 0.0), (4, 2, 1, 2, 0.25), (4, 2, 1, 3, 1048576.0), (4, 1, 1, 3, 64.0),
                 (8, 1, 1, 5, 4096.0), (4, 1, 1, 2, 0.0625), (4, 1, 1, 3, 4.0), (8, 1, 1, 3, 1024.0), (8, 3, 1, 1, 0.5)]
     budget = ({"spe": 260, "bad": 30, "gstress": 40, "lstress": 30, "rp": 60, "fa": 45, "reps": 120000,
+               "auto": 6, "huge": 2, "fa_special": 16,
                "fa_replay": fa_quick, "polar": [(4, 3), (9, 2), (2, 5)], "forced": 12} if quick else
               {"spe": 3000, "bad": 200, "gstress": 300, "lstress": 200, "rp": 600, "fa": 400, "reps": 2000000,
+               "auto": 40, "huge": 12, "fa_special": 150,
                "fa_replay": fa_quick * 3 + [(16, 4, 3, 1, 0.0), (8, 3, 1, 1, 0.0), (8, 3, 2, 1, 0.0), (4, 3, 2, 1, 0.0), (8, 2, 1, 2, 0.0),
                                             (16, 2, 1, 1, 0.0), (8, 3, 1, 2, 2.0), (4, 2, 2, 2, 1.0), (4, 1, 1, 4, 0.5)],
                "fa_cap3": True, "forced": 200, "polar": [(4, 3), (9, 2), (2, 5), (16, 4), (1, 1), (7, 7), (32, 2), (3, 16)]})
@@ -1434,6 +1703,13 @@ def run(ctx):
     eval_pairs(ctx, exe, mexe, [c for c in corp if c["kind"] in ("RP", "FA")] + pairs, st)
     eval_polar(ctx, exe_plain, mexe, rng, st, budget["polar"])
     eval_forced(ctx, exe_plain, mexe, rng, st, budget["forced"])
+    # wave 3: the iteration count at N = 205 (binary64 floor(0.04 N N) is 1680, N N / 25 is 1681), keywords left unset vs set
+    # to their documented defaults, calls from inside an application's parallel region (thread limit below the team size)
+    eval_spe(ctx, exe, mexe, [gen_spe_sched_only(rng, "n205", 205, True)] +
+             ([] if quick else [gen_spe_sched_only(rng, "n205l", 205, False), gen_spe_sched_only(rng, "n410", 410, True)]), st)
+    unset_groups, omp_groups = gen_variants(rng, quick)
+    eval_variants(ctx, exe, st, unset_groups)
+    eval_variants(ctx, exe, st, omp_groups, env={"OMP_NUM_THREADS": "4", "OMP_THREAD_LIMIT": "2"})
     ctx.note("phase: RP/FA pairs, FA trajectory replays and the polar-method replay done at %.1f s" % ctx.elapsed())
     if not ctx.has_violation():       # the measured tests cannot change a verdict that exists already
         eval_spe(ctx, exe, mexe, meas, st)
@@ -1483,6 +1759,14 @@ def replay(ctx, case):
     c.setdefault("id", "replay")
     kind = c.get("kind")
     c = norm_case(c)
+    if kind in ("SPE", "RP", "FA") and c.get("flags"):
+        # a variant (keywords left unset / called inside a parallel region) against its plain base call
+        b = effective(c)
+        b["flags"], b["id"] = 0, "replaybase"
+        c.setdefault("log", 0)
+        b["log"] = c["log"]
+        eval_variants(ctx, exe, st, [(b, [c], "replay")],
+                      env=({"OMP_NUM_THREADS": "4", "OMP_THREAD_LIMIT": "2"} if c["flags"] & 64 else None))
     if kind == "SPE":
         c.setdefault("log", 2)
         eval_spe(ctx, exe, mexe, [c], st)
